@@ -220,7 +220,7 @@ def _first_diff_tag(t, a, b, e):
 
 
 def explore(ctx: runner.Ctx):
-    ctx.given(st_case(), lambda c: check_case(ctx, c), ctx.budget(5000, 400000))
+    ctx.given(st_case(), lambda c: check_case(ctx, c), ctx.budget(8000, 400000))
 
 
 RULE = ("cases = (type spec, datum, debug mode, layouts) evaluated under strict and lax coercion on fresh copies of the "
